@@ -94,6 +94,8 @@ class Prover:
             return "proved", None, 0.0
         t0 = time.time()
         T = timeout_ms or self.timeout_ms
+        if getattr(self, "unknowns", 0):
+            T = max(T // 4, 2000)  # the function is already not fully proved: do not spend the full budget on every further goal
         r = z3.unknown
         m = None
         # unstable queries: several short attempts with different seeds before the long one (unknown is never a verdict)
@@ -115,6 +117,7 @@ class Prover:
             return "proved", None, dt
         if r == z3.sat:
             return "failed", m, dt
+        self.unknowns = getattr(self, "unknowns", 0) + 1
         return "unknown", None, dt
 
     def feasible(self, pc, timeout_ms=300):
